@@ -277,6 +277,9 @@ fn verif_enum_header_validation() {
         ("no data hash at all", Box::new(|h| { h.header.data_hash = None; })),
         ("the data hash of another square", Box::new(|h| { h.header.data_hash = Some(tendermint::Hash::Sha256([3u8; 32])); })),
         ("a validators_hash of another set", Box::new(|h| { h.header.validators_hash = tendermint::Hash::Sha256([6u8; 32]); })),
+        // C16 (seed C16-b): a consistently signed header with an app version this node does not know must be an error, not a panic
+        ("an unsupported app version (0)", Box::new(|h| { h.header.version.app = 0; })),
+        ("an unsupported app version (99)", Box::new(|h| { h.header.version.app = 99; })),
     ];
     for (what, t) in signed_variants.iter() {
         cases += 1;
